@@ -1,5 +1,5 @@
 import AdfObdd.Base
-/-! prototype 9: nogoods and the (repaired) nogood store -/
+/-! nogoods and the (repaired: D8a, D10 indexing) nogood store: `conclude`, `is_violating`, `conclusions` -/
 
 abbrev PA := List (Option Bool)          -- partial assignment / nogood / interpretation
 
@@ -169,8 +169,11 @@ def bucketStep (interp : PA) (acc : Option PA) (bucket : List PA) : Option PA :=
     else if pairs.any (fun x => pget acc x.1 == some (!x.2)) then none
     else some (mergePairs acc pairs)
 
-/-- buckets with index `≤ interp.len()` -/
-def relevant (store : List (List PA)) (interp : PA) : List (List PA) := store.take (size interp + 1)
+/-- the buckets `conclusions` looks at: bucket `k` holds the nogoods of size `k` (repaired
+indexing, D10), and the filter `*len <= nogood.len() + 1` keeps the indices `0 … size interp + 1`,
+i.e. the first `size interp + 2` buckets (`relevant_eq_filter` in `NgStore.lean` states the
+equality with the enumerate/filter form of the code) -/
+def relevant (store : List (List PA)) (interp : PA) : List (List PA) := store.take (size interp + 2)
 
 def conclusions (store : List (List PA)) (interp : PA) : Option PA :=
   match (relevant store interp).foldl (bucketStep interp) (some interp) with
